@@ -10,8 +10,15 @@ coqtools.regen_makefile()
 rc, log, wall = coqtools.make([], timeout=3000)
 print("coq build rc=%s in %.0fs" % (rc, wall)); print(log[-1500:] if rc else "")
 print("libraptor:", buildlib.build_lib())
+seen = set()
 for f in sorted(glob.glob("props/C*.py")):
-    mod = importlib.import_module(os.path.basename(f)[:-3])
+    try:
+        mod = importlib.import_module(os.path.basename(f)[:-3])
+    except Exception as e:
+        print("skip", f, e); continue
+    fam = getattr(mod, "FAMILY", "sparse")
+    if fam in seen: continue
+    seen.add(fam)
     try:
         print("model driver:", coqtools.build_extracted(getattr(mod, "FAMILY", "sparse"), getattr(mod, "OCAML_SRCS", ("conv.ml", "mat.ml", "drv_sparse.ml"))))
     except Exception as e:
